@@ -570,6 +570,7 @@ func runCheck(spec *CheckSpec, tier string) int {
 	seen := map[string]int{}
 	var conf []confirmed
 	var unconfirmed []string
+	os.RemoveAll(filepath.Join(verifDir, "replays", spec.ID))
 	os.MkdirAll(filepath.Join(verifDir, "replays", spec.ID), 0755)
 	for _, rv := range raws {
 		key := rv.job.Harness + "|" + rv.v.Kind + "|" + rv.v.Msg + "|" + rv.v.Class
